@@ -8,63 +8,84 @@ import (
 	"fmt"
 	"os"
 	"sort"
+	"strings"
 	"time"
 
-	"verifsim/harness/core"
 	_ "verifsim/harness/bcastx"
+	_ "verifsim/harness/ccallx"
 	_ "verifsim/harness/ccontx"
 	_ "verifsim/harness/concx"
-	_ "verifsim/harness/stackx"
-	_ "verifsim/harness/ccallx"
+	"verifsim/harness/core"
+	_ "verifsim/harness/csyncx"
+	_ "verifsim/harness/iox"
+	_ "verifsim/harness/keyedx"
 	_ "verifsim/harness/oncex"
 	_ "verifsim/harness/promisex"
 	_ "verifsim/harness/refcountx"
 	_ "verifsim/harness/routinex"
-	_ "verifsim/harness/csyncx"
-	_ "verifsim/harness/iox"
-	_ "verifsim/harness/keyedx"
+	_ "verifsim/harness/stackx"
 	"verifsim/simrt"
 )
 
 // ViolationRec is a recorded violation with everything needed to replay it.
 type ViolationRec struct {
-	Scenario string      `json:"scenario"`
-	Property string      `json:"property"`
-	Oracle   string      `json:"oracle"`
-	Msg      string      `json:"msg"`
-	Step     int         `json:"step"`
-	Seed     uint64      `json:"seed"`
-	Thorough bool        `json:"thorough"`
-	Hash     string      `json:"event_hash"`
-	Tape     *simrt.Tape `json:"tape"`
-	Desc     []string    `json:"plan,omitempty"`
-	LogTail  []string    `json:"last_events,omitempty"`
-	Minimised bool       `json:"minimised"`
-	ShrinkRuns int       `json:"shrink_runs,omitempty"`
-	OrigLen  [3]int      `json:"original_tape_len,omitempty"`
+	Scenario   string      `json:"scenario"`
+	Property   string      `json:"property"`
+	Oracle     string      `json:"oracle"`
+	Msg        string      `json:"msg"`
+	Step       int         `json:"step"`
+	Seed       uint64      `json:"seed"`
+	Thorough   bool        `json:"thorough"`
+	Hash       string      `json:"event_hash"`
+	Tape       *simrt.Tape `json:"tape"`
+	Desc       []string    `json:"plan,omitempty"`
+	LogTail    []string    `json:"last_events,omitempty"`
+	Minimised  bool        `json:"minimised"`
+	ShrinkRuns int         `json:"shrink_runs,omitempty"`
+	OrigLen    [3]int      `json:"original_tape_len,omitempty"`
 }
 
 // BatchResult is what a batch worker reports.
 type BatchResult struct {
-	Scenario   string         `json:"scenario"`
-	Runs       int            `json:"runs"`
-	Steps      int64          `json:"steps"`
-	SimNs      int64          `json:"sim_ns"`
-	Truncated  int            `json:"truncated"`
-	NonTrivial int            `json:"nontrivial_runs"`
-	Counts     map[string]int `json:"counts"`     // total firings
-	RunsWith   map[string]int `json:"runs_with"`  // runs in which the counter fired
-	Strategies map[string]int `json:"strategies"`
-	Hashes     []uint64       `json:"-"`
-	NTHashes   []uint64       `json:"nt_hashes"`
-	HashCapHit bool           `json:"hash_cap_hit"`
-	Violations []ViolationRec `json:"violations"`
-	ViolCount  map[string]int `json:"violation_counts"`
-	Samples    [][]string     `json:"samples"`
-	DetChecks  int            `json:"determinism_double_runs"`
-	DetFail    []string       `json:"determinism_failures"`
-	WallS      float64        `json:"wall_s"`
-	Parker     string         `json:"parker"`
+	Scenario    string         `json:"scenario"`
+	Runs        int            `json:"runs"`
+	Steps       int64          `json:"steps"`
+	SimNs       int64          `json:"sim_ns"`
+	Truncated   int            `json:"truncated"`
+	NonTrivial  int            `json:"nontrivial_runs"`
+	Counts      map[string]int `json:"counts"`    // total firings
+	RunsWith    map[string]int `json:"runs_with"` // runs in which the counter fired
+	Strategies  map[string]int `json:"strategies"`
+	Hashes      []uint64       `json:"-"`
+	NTHashes    []uint64       `json:"nt_hashes"`
+	HashCapHit  bool           `json:"hash_cap_hit"`
+	Violations  []ViolationRec `json:"violations"`
+	ViolCount   map[string]int `json:"violation_counts"`
+	Samples     [][]string     `json:"samples"`
+	DetChecks   int            `json:"determinism_double_runs"`
+	DetFail     []string       `json:"determinism_failures"`
+	WallS       float64        `json:"wall_s"`
+	Parker      string         `json:"parker"`
+	RaceReports int            `json:"race_reports_total"`
+	RaceKept    int            `json:"race_reports_library"`
+}
+
+var raceScan *raceScanner
+
+// raceViolation converts new race reports of the run into a violation of C13.
+func raceViolation(o *core.Outcome) {
+	if raceScan == nil {
+		return
+	}
+	reps := raceScan.scan()
+	if len(reps) == 0 || o.Violation != nil && !strings.HasPrefix(o.Violation.Oracle, "C13.") {
+		if len(reps) == 0 {
+			return
+		}
+	}
+	r := reps[0]
+	msg := fmt.Sprintf("data race involving library code (%d report(s) in this run); first:\n%s", len(reps), r.Text)
+	o.Violation = &simrt.Violation{Oracle: "C13.race." + r.Sig, Msg: msg, Step: o.Steps}
 }
 
 func seedFor(seed0 uint64, i int) uint64 {
@@ -109,6 +130,8 @@ func main() {
 	hashCap := flag.Int("hashcap", 400000, "max hashes kept")
 	stopAfter := flag.Int("stop-after", 8, "stop the batch after this many violations")
 	list := flag.Bool("list", false, "list scenarios")
+	raceLog := flag.String("racelog", "", "GORACE log_path of this process: scan it after every run (C13)")
+	libPrefix := flag.String("libprefix", "/repo", "path prefix of library source files in race reports")
 	flag.Parse()
 
 	if !simrt.SelfTestChanLayout() {
@@ -120,6 +143,9 @@ func main() {
 			fmt.Println(n)
 		}
 		return
+	}
+	if *raceLog != "" {
+		raceScan = newRaceScanner(*raceLog, *libPrefix)
 	}
 	if *replay != "" {
 		doReplay(*replay, *out)
@@ -144,6 +170,7 @@ func main() {
 		seed := seedFor(*seed0, i)
 		wantDesc := i < 3
 		o := core.RunOne(sc, seed, core.RunOpts{Thorough: *thorough, WantDesc: wantDesc, Only: *only})
+		raceViolation(o)
 		res.Runs++
 		res.Steps += int64(o.Steps)
 		res.SimNs += o.SimNs
@@ -186,9 +213,11 @@ func main() {
 			// keep at most 3 per oracle id
 			if res.ViolCount[o.Violation.Oracle] <= 3 {
 				// re-run with log and description for the record
-				o3 := core.RunOne(sc, seed, core.RunOpts{Thorough: *thorough, WantDesc: true, KeepLog: 120, Only: *only})
-				if o3.Violation != nil && o3.Violation.Oracle == o.Violation.Oracle {
-					o = o3
+				if !strings.HasPrefix(o.Violation.Oracle, "C13.") {
+					o3 := core.RunOne(sc, seed, core.RunOpts{Thorough: *thorough, WantDesc: true, KeepLog: 120, Only: *only})
+					if o3.Violation != nil && o3.Violation.Oracle == o.Violation.Oracle {
+						o = o3
+					}
 				}
 				res.Violations = append(res.Violations, mkRec(sc, o, *thorough))
 			}
@@ -202,6 +231,9 @@ func main() {
 	}
 	sort.Slice(res.NTHashes, func(i, j int) bool { return res.NTHashes[i] < res.NTHashes[j] })
 	res.WallS = time.Since(start).Seconds()
+	if raceScan != nil {
+		res.RaceReports, res.RaceKept = raceScan.Total, raceScan.Kept
+	}
 	writeJSON(*out, res)
 }
 
@@ -231,6 +263,17 @@ func doReplay(path, out string) {
 		os.Exit(2)
 	}
 	o := core.RunOne(sc, r.Seed, core.RunOpts{Thorough: r.Thorough, WantDesc: true, KeepLog: 200, Replay: r.Tape})
+	if strings.HasPrefix(r.Oracle, "C13.") {
+		// a race report is reproduced if the same pair of library frames is reported again
+		o.Violation = nil
+		if raceScan != nil {
+			for _, rep := range raceScan.scan() {
+				if "C13.race."+rep.Sig == r.Oracle {
+					o.Violation = &simrt.Violation{Oracle: r.Oracle, Msg: rep.Text, Step: r.Step}
+				}
+			}
+		}
+	}
 	status := "NOT-REPRODUCED"
 	if o.Violation != nil && o.Violation.Oracle == r.Oracle {
 		status = "REPRODUCED"
